@@ -21,10 +21,10 @@ import (
 func init() {
 	kernel.Register(&kernel.World{
 		Property: "C02", Bubble: true, Run: runC02, RunsPerProc: 250,
-		Rule: "one run = a tape-generated session of 2-4 clients on one real broker (connect, subscribe 1-3 filters, unsubscribe, publish incl. me=0 / QoS1 / link shortcuts, link requests, bad requests), packets optionally fed in chunks interleaved with other clients; non-trivial = at least one publish whose expected recipient set was non-empty was checked; distinct = distinct canonical event logs",
+		Rule: "one run = a tape-generated session of 2-4 clients on one real broker (connect, subscribe 1-3 filters, unsubscribe, publish incl. me=0 / QoS1 / link shortcuts, link requests, bad requests), packets optionally fed in chunks interleaved with other clients; 1 run in 6 = the concurrent campaign: 2-4 connections each write 1-3 subscribe / unsubscribe requests on one branch of the trie at once, their goroutines are interleaved at every mutex boundary of internal/message, pubsub and broker/conn.go (autoyield points; uniform, depth-preemptive or sticky policy), then the trie must hold exactly the acknowledged subscriptions and probe publishes reach exactly their holders once; non-trivial = at least one publish whose expected recipient set was non-empty was checked; distinct = distinct canonical event logs",
 		Real:  []string{"broker.Service", "broker.Conn", "mqtt codec (emitter side)", "pubsub", "link", "me", "keygen", "message.Trie", "message.Counters", "security.ParseChannel/Key", "cluster.Swarm (single node)", "event.State/crdt"},
 		Stub:  []string{"client sockets (simnet)", "weaveworks/mesh (simmesh, no peers)", "clock (synctest)"},
-		Assumptions: []string{"steps are atomic: one client packet (or chunk) then quiescence", "connection ids have distinct 32-bit hashes"},
+		Assumptions: []string{"outside the concurrent campaign steps are atomic: one client packet (or chunk) then quiescence", "connection ids have distinct 32-bit hashes"},
 	})
 }
 
@@ -111,6 +111,10 @@ func canon(p packets.ControlPacket, norm *world.Norm) string {
 
 func runC02(c *kernel.Ctx) {
 	t := c.Tape
+	if c.Params["campaign"] != "session" && (c.Params["campaign"] == "concurrent" || t.Chance(1, 6)) {
+		runC02Concurrent(c)
+		return
+	}
 	c.SleepToEpoch()
 	w := &c02World{c: c, norm: world.NewNorm(), levels: []string{"a", "b", "x", "y"}}
 	lic := world.Licenses[t.Choose(3)]
